@@ -21,9 +21,12 @@ C11_JOBS = int(os.environ.get('VERIF_C11_JOBS', os.environ.get('VERIF_JOBS', '10
 
 RULE = ('programs = view expression trees of depth 1..2 (quick) / 1..3 (thorough) over leaves of every static-knowledge kind '
         '(constant shape cs/fx, clipped shape cl/cld/cla, fixed dim fd/fdf/fdh, bounded dim bd, dynamic dy): depth 1 = every operation '
-        'variant (compile-time / clipped / fixed-length run-time / dynamic run-time arguments) x every leaf kind, depth 2..3 = fixed-seed sample over the 23 view functions with a Lean transfer function; '
+        'variant (compile-time / clipped / fixed-length run-time / dynamic run-time arguments) x every leaf kind, depth 2..3 = fixed-seed sample over the 23 view functions of the first two groups; '
         'instances = every run-time shape admitted by the leaf types when that set is small (all shapes under a clipped bound, all factorisations '
         'of a fixed buffer), VERIF_SEED-sampled shapes for fixed-dim / bounded-dim / dynamic leaves, run-time arguments derived from the instance; '
+        'second group of TUs: index-array arguments in a bounded container (nmtools_static_vector<int,CAP>, run-time length BELOW and AT the capacity, '
+        'longer than the operand rank) for tile / reshape / broadcast_to / transpose / pad over every leaf kind, outer products of fixed-buffer operands; '
+        'older resolver (bare array::eval(view)): negative / transpose / tile / expand_dims / add over 7 leaf kinds, fixed + VERIF_SEED-sampled shapes; '
         'only instances NumPy accepts. non-trivial = the run-time shape of the instance differs from the nominal shape of the program or the program has depth >= 2')
 EXHAUSTIVE = {'quick': False, 'thorough': False}
 ANCHORS = {
@@ -34,28 +37,40 @@ ANCHORS = {
     'NmVerif.Static.transfer* (StaticMore.lean)': 'resolve_optype of index::shape_repeat / shape_pad / shape_roll / shape_slice / shape_dynamic_slice / '
                                 'moveaxis_to_transpose / shape_take / shape_atleast_nd / shape_matmul / broadcast_size, accumulate_t shape_/size_, '
                                 'take_t and matmul_t fixed_size / bounded_size, decorator default over a tuple of operands (where)',
+    'NmVerif.Static.transfer* (StaticGen.lean)': 'view::eye / view::tri (dst_shape construction), resolve_optype of index::shape_tril / shape_pool2d / shape_resize / '
+                                'shape_sliding_window / shape_compress / shape_outer / size_outer, pool2d_t and compress_t fixed_size / bounded_size, '
+                                'outer_t bounded_size + decorator default fixed_size from the type of size()',
     'NmVerif.Static.resolveEval': 'resolve_optype<eval_type_resolver_t<default_type_resolver_t<Layout>>, view_t, none_t> (eval.hpp:706-879): candidate '
                                 'shape / data buffers and the priority chain; compared as rk / rfz / rbz of the result type on every modelled program',
+    'NmVerif.Static.resolveEvalOld1/2': 'resolve_optype<array::eval_t, view_t, none_t> (eval.hpp:888-948) with resolve_unary_array_type (:422-590) and '
+                                'resolve_binary_array_type (:604-688): the default resolver_t of array::eval(view); compared as ork / orfz / orbz and the '
+                                'predicted fits / does-not-fit of every request of harness/h_c11_old.cpp',
     'eval result': 'evaluator_t::operator() on the container the resolver chose: result shape and every element compared with the view',
 }
 ASSUMPTIONS = ['which static kind a composed view type gets is decided by C++ metafunctions; the Lean transfer functions are a hand-written mirror, '
                'tied to them by comparing the predicted with the printed static knowledge for every generated program of the modelled operations',
                'instances are restricted to positive extents and to arguments NumPy accepts (invalid arguments are C15)',
                'kind combinations the unchanged library cannot compile are excluded (harness/c11_uncompilable.txt)']
-PARTIAL = ['no Lean transfer function (static knowledge and eval result checked against run-time objects and NumPy for every leaf kind, depth 1): '
-           'eye, tri, tril/triu, max_pool2d/avg_pool2d, resize, sliding_window, compress, outer',
+PARTIAL = ['bounded-container (static_vector) arguments are modelled and generated for tile, reshape, broadcast_to, transpose, pad; not for expand_dims axes and '
+           'repeat counts (AxisK / NumK have no bounded kind; array-valued repeats have no transfer function)',
+           'sliding_window: (integer window, one axis) and (window per axis, axis None) are modelled; a list of axes is not (no Lean transfer, not generated)',
            'where: fixed / bounded size of the view are those of ONE broadcast operand since fix commit 9f8dcf6 (before it the decorator default tripled them: former known finding C11.where-tripled-fixed-size)',
-           'the eval resolver model covers the default resolver with context None and no caller-supplied output (eval.hpp:706-879); the older '
-           'resolver used by a bare array::eval(view) (eval.hpp:881-) is not modelled']
+           'the older resolver of a bare array::eval(view) (eval.hpp:888-948) is modelled for views over ONE or TWO array::ndarray_t operands '
+           '(resolveEvalOld1/2; views with three or more operands, view::where, creation routines without an array operand and nested views are not) '
+           'and compared with the real result types on a hand-written scope (harness/h_c11_old.cpp: negative, transpose, tile, expand_dims, add over '
+           '7 leaf kinds); its result-fits statement holds only where the reused operand container covers the view (old_eval_result_buffer_fits) — '
+           'elsewhere it FAILS: open finding C11.old-resolver-operand-container (old_eval_counterexample, fixes/C11-old-resolver-operand-container.diff)']
 MANIFEST = dict(
     text=('Proof: the compile-time knowledge nmtools attaches to an array / view type is modelled as an abstract value (shape-type kind: '
           'constant / clipped / fixed dim / bounded dim / dynamic; size: known / at most / unknown) with concretisation gamma; Lean theorems show that the '
-          'five traits are true of every instance (traits_sound), that the transfer function of each of 23 view functions (transpose, reshape, flatten, '
+          'five traits are true of every instance (traits_sound), that the transfer function of each of 33 view functions (transpose, reshape, flatten, '
           'broadcast_to, tile, expand_dims, squeeze, reductions, unary and binary ufuncs, concatenate; repeat, pad, cumsum/accumulate, roll, flip, slice, '
-          'moveaxis, take, atleast_nd, ufunc with a number, where, matmul) is sound for ALL shapes, ranks and arguments, that soundness composes over '
+          'moveaxis, take, atleast_nd, ufunc with a number, where, matmul; eye, tri, tril, triu, max_pool2d, avg_pool2d, resize, sliding_window, compress, '
+          'outer) is sound for ALL shapes, ranks and arguments, that soundness composes over '
           'arbitrary view expression trees (static_sound), that a buffer of bounded_size elements holds every result (result_buffer_fits) and that the '
           'container the default eval resolver chooses from the five traits can be given the run-time shape and holds every element of every instance '
-          '(eval_result_buffer_fits, composed_eval_result_fits). The transfer functions and the resolver model are tied to the real metafunctions by '
+          '(eval_result_buffer_fits, composed_eval_result_fits; for the older resolver of a bare array::eval(view) under the explicit condition that '
+          'the reused operand container covers the view: old_eval_result_buffer_fits). The transfer functions and the resolver model are tied to the real metafunctions by '
           'generated translation units: for every program (depth 1..3 over 10 leaf kinds) the printed fixed_shape/fixed_dim/fixed_size/bounded_dim/'
           'bounded_size, the shape-type kind and the kind / fixed_size / bounded_size of the eval result type must equal the Lean prediction, and for every '
           'run-time shape the type admits they must agree with the object and with NumPy, and eval must return the whole result.'),
@@ -66,10 +81,13 @@ MANIFEST = dict(
           'outside that class. matmul of two constant-shape operands reports fixed_size 4 next to bounded_size 36 (sound; SizeK.knownB). '
           'Three metafunctions that read the maxima of a clipped shape as its extents '
           '(broadcast_shape, shape_take, shape_squeeze) were found earlier and repaired (fixes/C11-*.diff). Kind combinations that do not compile are excluded '
-          '(harness/c11_uncompilable.txt).'),
+          '(harness/c11_uncompilable.txt). Open finding C11.old-resolver-operand-container: a bare array::eval(view) (older resolver eval_t, the default '
+          'resolver_t) takes the operand type for the result; a view of higher rank / larger size than the operand container admits comes back as a '
+          'default-constructed array (old_eval_counterexample; repair proposal fixes/C11-old-resolver-operand-container.diff, not applied).'),
     technique='Lean 4 soundness proof of an abstract interpretation + differential correspondence on generated kind-matrix translation units')
 
 _cache = {}
+OLD_HARNESS = 'h_c11_old'
 
 
 def _setup(tier):
@@ -84,6 +102,7 @@ def _setup(tier):
 def harness_specs(tier):
     progs, tus = _setup(tier)
     specs = [dict(name=name, src=path, flavour='fast') for name, path, ids in tus]
+    specs.append(dict(name=OLD_HARNESS, src=os.path.join(runner.ROOT, 'harness', 'h_c11_old.cpp'), flavour='fast'))
     # compile-heavy: build here with bounded parallelism; the runner's own (16-way) build then only finds cache hits
     t0 = time.time()
     with ThreadPoolExecutor(max_workers=C11_JOBS) as ex:
@@ -210,6 +229,142 @@ def gen(tier, rng):
             if where_tripled_fixed_size(c):
                 c.dom = False       # known-defect region: the model mirrors the unsound trait, NumPy is the judge
             yield c
+    for c in gen_old(tier, rng):
+        yield c
+
+
+# ------------------------------------------------------------------------------------------------
+# the OLDER resolver: a bare array::eval(view) (harness/h_c11_old.cpp, driver op c11old)
+#   impl   ok shape=.. ork=.. orfz=.. orbz=.. oev=ok|shape:..|elem:..|count:.. hk=..
+#   model  M shape=.. ork=.. orfz=.. orbz=.. covers=0|1 fits=0|1
+#   oracle T shape=..
+# ------------------------------------------------------------------------------------------------
+
+# leaf kind -> (shape container, data buffer) as the older resolver sees them
+OLD_LEAF = {'fd2': (('f', 2), 'd'), 'fd3': (('f', 3), 'd'), 'bd3': (('b', 3), 'd'), 'dy': (('d',), 'd'),
+            'cs23': (('c', (2, 3)), ('F', 6)), 'fdf23': (('f', 2), ('F', 6)), 'cld23': (('l', (2, 3)), 'd')}
+OLD_SHAPES = {'fd2': [(2, 3), (1, 4), (3, 1)], 'bd3': [(3,), (2, 3), (2, 3, 2), (1, 1, 1)], 'dy': [(3,), (2, 3), (2, 1, 2, 3)],
+              'cs23': [(2, 3)], 'fdf23': [(2, 3), (3, 2), (6, 1), (1, 6)], 'cld23': [(2, 3), (1, 3), (2, 1), (1, 1)]}
+OLD_PAIRS = [('fd2', 'fd2', (2, 3), (1, 3)), ('bd3', 'dy', (3,), (2, 2, 2, 3)), ('bd3', 'dy', (2, 3), (2, 3)), ('bd3', 'dy', (2, 3), (4, 2, 3)),
+             ('bd3', 'dy', (1, 3), (2, 1, 2, 1)), ('dy', 'bd3', (2, 2, 2, 3), (3,)), ('dy', 'bd3', (2, 3), (2, 3)), ('cs23', 'dy', (2, 3), (4, 2, 3)),
+             ('cs23', 'fd2', (2, 3), (1, 3)), ('dy', 'dy', (2, 1), (4, 1, 3))]
+
+
+def _old_np(op, a, b=None):
+    import numpy as np
+    if op == 'neg':
+        return -a
+    if op == 'tr':
+        return np.transpose(a)
+    if op == 'tile2':
+        return np.tile(a, [2] * (a.ndim + 1))
+    if op == 'tileN':
+        return np.tile(a, [1] * (a.ndim - 1) + [2])
+    if op == 'exp0':
+        return np.expand_dims(a, 0)
+    if op == 'add':
+        return a + b
+    raise ValueError(op)
+
+
+def _old_container(op, kind, kind2=None):
+    """mirror of NmVerif.Static.resolveEvalOld1/2: the (shape container, buffer) the older resolver picks; None = vector/vector"""
+    if op == 'add':
+        for k in (kind, kind2):
+            if OLD_LEAF[k][0][0] != 'c':
+                return OLD_LEAF[k]
+        return None
+    sh, buf = OLD_LEAF[kind]
+    if sh[0] == 'c':
+        return None
+    op_fd = sh[1] if sh[0] == 'f' else (len(sh[1]) if sh[0] == 'l' else None)
+    view_fd = None if (op_fd is None or op == 'tile2') else (op_fd + 1 if op == 'exp0' else op_fd)
+    if (op_fd is None and view_fd is None) or (op_fd is not None and op_fd == view_fd):
+        return (sh, buf)
+    return None
+
+
+def _old_fits(cont, T):
+    if cont is None:
+        return True
+    sh, buf = cont
+    ok = {'d': lambda: True, 'f': lambda: len(T) == sh[1], 'b': lambda: len(T) <= sh[1],
+          'l': lambda: len(T) == len(sh[1]) and all(t <= m for t, m in zip(T, sh[1])), 'c': lambda: tuple(T) == tuple(sh[1])}[sh[0]]()
+    return ok and (buf == 'd' or G.prod(T) == buf[1])
+
+
+def _old_parse(req):
+    a = dict(kv.split('=', 1) for kv in req.split(' ')[1:] if '=' in kv)
+    return a
+
+
+def old_resolver_operand_container(case):
+    """input class of C11.old-resolver-operand-container: requests to the bare array::eval(view) whose result type is the
+    operand's own type (older resolver: dynamic view over a non-constant-shape operand, fixed-dim flags agreeing) while the
+    run-time result shape / size is not admitted by that operand container (rank above the capacity of its shape container,
+    an extent above a clipped maximum, a size different from its fixed buffer)."""
+    if not case.req.startswith('old '):
+        return False
+    a = _old_parse(case.req)
+    import numpy as np
+    try:
+        x = np.zeros(ints(a['shape']), dtype=np.int64)
+        y = np.zeros(ints(a['shape2']), dtype=np.int64) if 'shape2' in a else None
+        T = list(_old_np(a['op'], x, y).shape)
+    except Exception:
+        return False
+    return not _old_fits(_old_container(a['op'], a['kind'], a.get('kind2')), T)
+
+
+def cmp_old(a, b):
+    ka, kb = _who(a), _who(b)
+    if (ka, kb) == ('I', 'T'):
+        if not a.startswith('ok '):
+            return False
+        f = fields(a)
+        return f['shape'] == fields(b)['shape'] and f['oev'] == 'ok' and f['hk'].split('/')[0] == '0'
+    if (ka, kb) == ('I', 'M'):
+        if not a.startswith('ok ') or not b.startswith('M shape='):
+            return False
+        fa, fb = fields(a), fields(b)
+        return all(fa[k] == fb[k] for k in ('shape', 'ork', 'orfz', 'orbz')) and (fa['oev'] == 'ok') == (fb['fits'] == '1')
+    if (ka, kb) == ('M', 'T'):
+        if not a.startswith('M shape='):
+            return False
+        fa = fields(a)
+        return fa['shape'] == fields(b)['shape'] and fa['fits'] == '1'
+    return a == b
+
+
+def gen_old(tier, rng):
+    import numpy as np
+    reqs = []
+    for kind, shapes in OLD_SHAPES.items():
+        shapes = list(shapes)
+        if kind in ('dy', 'bd3'):
+            shapes += [tuple(rng.randint(1, 3) for _ in range(rng.randint(1, 3))) for _ in range(2 if tier == 'quick' else 6)]
+        if kind == 'fd2':
+            shapes += [tuple(rng.randint(1, 4) for _ in range(2)) for _ in range(2 if tier == 'quick' else 6)]
+        for op in ('neg', 'tr', 'tile2', 'exp0', 'tileN'):
+            if op == 'tileN' and kind in ('bd3', 'dy'):
+                continue
+            for s in shapes:
+                reqs.append((op, kind, s, None, None))
+    for k1, k2, s1, s2 in OLD_PAIRS:
+        reqs.append(('add', k1, s1, k2, s2))
+    seen = set()
+    for op, kind, s, k2, s2 in reqs:
+        if (op, kind, s, k2, s2) in seen:
+            continue
+        seen.add((op, kind, s, k2, s2))
+        x = np.zeros(s, dtype=np.int64); y = np.zeros(s2, dtype=np.int64) if s2 is not None else None
+        T = list(_old_np(op, x, y).shape)
+        tail = 'op=%s kind=%s shape=%s' % (op, kind, G.fmt(s)) + ('' if k2 is None else ' kind2=%s shape2=%s' % (k2, G.fmt(s2)))
+        c = Case('old ' + tail, OLD_HARNESS, dom=True, oracle='T shape=%s' % G.fmt(T), model=True, mreq='c11old ' + tail,
+                 nontrivial=(T != list(s)), tags=['old-resolver', 'root=' + op, 'leaf=' + kind], cmp=cmp_old)
+        if old_resolver_operand_container(c):
+            c.dom = False       # known-defect region: the model mirrors the resolver, NumPy is the judge
+        yield c
 
 
 def post(cases, tier):
@@ -295,4 +450,5 @@ def where_tripled_fixed_size(case):
     return z[0] == 'known'
 
 
-KNOWN_PREDICATES = {'where_tripled_fixed_size': where_tripled_fixed_size}
+KNOWN_PREDICATES = {'where_tripled_fixed_size': where_tripled_fixed_size,
+                    'old_resolver_operand_container': old_resolver_operand_container}
